@@ -10,6 +10,12 @@
 (*   Return            AuctionBlock of auction i returned; `clks` = the clock phases compatible *)
 (*                     with the instant; the logged Results must be the specification's state   *)
 (*   Serve             BuilderBid(key) returned `bid`                                           *)
+(*   Fetch             another user of the client cache (submission of validator registrations, *)
+(*                     a direct fetch) obtained the client of address (r, sp)                   *)
+(* Relays are identified by LOCATION in the logged Results (providers, all providers,           *)
+(* participation): which spelling's client a design hands out is not the property's business,   *)
+(* whether a bid was eligible under the key known for the relay as configured for the auction   *)
+(* is - the specification computes that from the logged configuration (cfg[i][r].key / .sp).    *)
 (* The lines of one auction form a block placed at the instant the auction returned (auctions   *)
 (* that overlapped in real time - flag `overlapping` - appear one after the other; the Serve    *)
 (* lines are where they happened relative to the returns): the auctions of the specification    *)
@@ -27,9 +33,12 @@ tvars == <<vars, l, dl>>
 K(s, p, v) == [s |-> s, p |-> p, v |-> v]
 TraceKeys == {K(s, p, v) : s \in 1..3, p \in 1..3, v \in 1..3}
 
-Fresh(v, p) ==
+TraceFetchSet == Relays \X Spellings
+
+Fresh(v) ==
     /\ variant' = v
-    /\ prov' = p
+    /\ clients' = [k \in ClientKeys |-> "unset"]
+    /\ cl' = [i \in Auc |-> NoClients]
     /\ st' = [i \in Auc |-> "idle"]
     /\ cfg' = [i \in Auc |-> DummyCfg]
     /\ tab' = [i \in Auc |-> AnyTab]
@@ -50,7 +59,8 @@ Fresh(v, p) ==
 TraceInit ==
     /\ l = 1
     /\ variant = "best"
-    /\ prov = [r \in Relays |-> FALSE]
+    /\ clients = [k \in ClientKeys |-> "unset"]
+    /\ cl = [i \in Auc |-> NoClients]
     /\ st = [i \in Auc |-> "idle"]
     /\ cfg = [i \in Auc |-> DummyCfg]
     /\ tab = [i \in Auc |-> AnyTab]
@@ -74,7 +84,7 @@ IsEvent(e) == l <= TraceLen /\ Trace[l].ev = e /\ l' = l + 1
 
 TraceReset ==
     /\ IsEvent("Reset")
-    /\ Fresh(Trace[l].variant, [r \in Relays |-> Trace[l].prov[r]])
+    /\ Fresh(Trace[l].variant)
     /\ dl' = <<>>
 
 TraceAuction ==
@@ -119,6 +129,14 @@ TraceServe ==
     /\ Serve(Trace[l].key)
     /\ served'.bid = [i |-> Trace[l].bid.i, r |-> Trace[l].bid.r, n |-> Trace[l].bid.n]
 
+\* a fetch of a client that exists changes nothing
+TraceFetch ==
+    /\ IsEvent("Fetch")
+    /\ UNCHANGED dl
+    /\ Trace[l].r \in Relays /\ Trace[l].sp \in Spellings
+    /\ \/ Fetch(Trace[l].r, Trace[l].sp)
+       \/ clients[CacheKey(Trace[l].r, Trace[l].sp)] # "unset" /\ UNCHANGED vars
+
 TraceSilent ==
     /\ l > 1 /\ l <= TraceLen /\ Trace[l].ev \in {"Deliver", "Return"} /\ l' = l
     /\ UNCHANGED dl
@@ -127,7 +145,7 @@ TraceSilent ==
          /\ \/ Tick(i)
             \/ \E e \in chan[i] : Consume(i, e) \/ Drop(i, e)
 
-TraceNext == TraceReset \/ TraceAuction \/ TraceDeliver \/ TraceReturn \/ TraceServe \/ TraceSilent
+TraceNext == TraceReset \/ TraceAuction \/ TraceDeliver \/ TraceReturn \/ TraceServe \/ TraceFetch \/ TraceSilent
 
 TraceSpec == TraceInit /\ [][TraceNext]_tvars
 
